@@ -34,7 +34,7 @@ def run(ctx):
         b4 = gen(ctx, 4)
         ctx.cov["histories_len4_enumerated"] = len(b4)
         random.Random(ctx.seed * 13 + 1).shuffle(b4)
-        behs = gen(ctx, 3) + b4[:6000] + gen(ctx, 12, simulate=600)
+        behs = gen(ctx, 3) + b4[:2500] + gen(ctx, 12, simulate=600)
     bpath = os.path.join(ctx.tmp, "lt_behaviours.json")
     json.dump(behs, open(bpath, "w"))
     tpath = os.path.join(ctx.tmp, "lt_trace.ndjson")
